@@ -189,6 +189,21 @@ static std::string handle(const Case& c) {
                 return "ok " + show_index(nm::unwrap(r)) + " ; " + show_index(src);
             });
     }
+    if (op == "resize_ixall") {    // resize_ixall S:kind L:src L:dst -> "ok <shape_resize> ; <index::resize of EVERY dst index, flattened>"
+        // drives the index map directly over large extents (no array is allocated)
+        return with_ulist_pair(kind(0), c.args[1].list, c.args[2].list, [&](const auto& shp, const auto& dst) -> std::string {
+            auto r = ix::shape_resize(shp, dst);
+            if (!nm::has_value(r)) return "nothing";
+            std::vector<size_t> ext(c.args[2].list.begin(), c.args[2].list.end()), idx(ext.size(), 0);
+            size_t total = 1; for (auto e : ext) total *= e;
+            std::string o = "ok " + show_index(nm::unwrap(r)) + " ;";
+            for (size_t n = 0; n < total; n++) {
+                o += (n ? "," : " ") + show_index(ix::resize(idx, shp, dst));
+                for (int d = (int)ext.size() - 1; d >= 0; d--) { if (++idx[d] < ext[d]) break; idx[d] = 0; }
+            }
+            return o;
+        });
+    }
     // ------------------------------------------------------------------ expand
     if (op == "expand") {          // expand S:kind A:src I:axis I:spacing    (fill value -1)
         auto a = make_array(c.args[1]); int sp = (int)c.args[3].val; ll ax = c.args[2].val;
